@@ -1094,6 +1094,32 @@ class CLB(CLS):
                       *[wf_g1(x, "B[%d]" % i, v, nonzero=True) for i, v in enumerate(T["B"])],
                       wf_g2(x, "X", T["X"]), wf_g2(x, "Y", T["Y"]), *[wf_g2(x, "Z[%d]" % i, v) for i, v in enumerate(T["Z"])])
 
+    def recipes(self):
+        def recombine(x, T, alts, aux):
+            """linear recombination across blocks (the classical attack on a batched check without random exponents):
+            B_i += t B_j, B_j *= (1 - t) keeps sum B_i, and the message of block j is solved so that sum m_i B_i is
+            kept as well; every per-block equation e(A_i, Y) = e(B_i, g) is broken, so the triple is invalid"""
+            n = len(T["B"])
+            if n < 2:
+                return
+            E = x.base.E
+            i, j = aux % n, (aux // n) % n
+            if i == j:
+                j = (i + 1) % n
+            t = [2, 3, x.r - 1, 2 + (aux >> 16) % (x.r - 3)][(aux >> 8) % 4]
+            if (1 - t) % x.r == 0:
+                t = 2
+            ms = [bytes_scalar(x, m) for m in T["msgs"]]
+            B = list(T["B"])
+            B[i] = E.add(B[i], E.mul(t, B[j]))
+            B[j] = E.mul((1 - t) % x.r, B[j])
+            T["B"] = B
+            mj = (ms[j + 1] - t * ms[i + 1]) * pow(1 - t, -1, x.r) % x.r
+            msgs = list(T["msgs"])
+            msgs[j + 1] = mj.to_bytes(max(1, (mj.bit_length() + 7) // 8), "big")
+            T["msgs"] = msgs
+        return CLS.recipes(self) + [("block-recombination", recombine)] * 3
+
     def equation(self, env, cfg, x, inf, T, case):
         E = x.base.E
         g = x.G2
